@@ -130,8 +130,19 @@ fn play(c: &Case, st: &mut Stats) -> Result<Vec<Played>, Failure> {
         cookies.push(learn_cookie(&sut, f, 100).map_err(|e| Failure::new(format!("in-scope SYN not answered: {}", e)))?);
     }
     if cookies[0] == cookies[1] || cookies[0] == cookies[2] || cookies[1] == cookies[2] {
-        st.exclude("cookie-collision");
-        return Ok(vec![]);
+        // three flows constructed to differ in one tuple component each. A chance collision (the
+        // listed finding `cookie-collision`, 2^-32 per pair) depends on the key; neighbours that
+        // collide under a second key too are not told apart by the responder
+        let mut cfg2 = cfg.clone();
+        cfg2.key = [cfg.key[0] ^ 0x9e37_79b9_7f4a_7c15, cfg.key[1].rotate_left(17) ^ 0x51];
+        let s2 = Sut::new(&cfg2);
+        let k2: Vec<Result<u32, String>> = flows.iter().map(|f| learn_cookie(&s2, f, 100)).collect();
+        let again = |a: usize, b: usize| cookies[a] == cookies[b] && k2[a].is_ok() && k2[a] == k2[b];
+        if !(again(0, 1) || again(0, 2) || again(1, 2)) {
+            st.exclude("cookie-collision");
+            return Ok(vec![]);
+        }
+        return Err(Failure::new(format!("two of the case's three flows (source ports {} / {} and the destination-address sibling) got the same SYN cookie ({:#010x} {:#010x} {:#010x}): they share one control block", c.sport, c.sport.wrapping_add(1), cookies[0], cookies[1], cookies[2])));
     }
     let mut off = vec![0usize; 3];
     let mut world = World::new(&sut, net, 52000, 9);
